@@ -277,6 +277,22 @@ pub fn c05() -> Outcome {
         for k in 10..=16u64 { if st.get(&k) != Some(&(7.0 + (k - 9) as f64)) { return Outcome { cases: n, distinct: d.len(), fail: Some(format!("dependent chain x10 := x2+1, x11 := x10+1, ...: reported state {st:?}, expected x{k} = {}", 7.0 + (k - 9) as f64)) }; } }
         if st.get(&0) != Some(&3.0) || st.get(&1) != Some(&4.0) || st.get(&2) != Some(&7.0) { return Outcome { cases: n, distinct: d.len(), fail: Some(format!("reported state {st:?}, expected x0=3 (given), x1=4 (fixed), x2=7 (dependent = 2*x0+1)")) }; }
     }
+    // a state that also carries (stale) entries for dependent variables - as a solver adapter returns them -: the reported value is the one the dependency defines
+    {
+        n += 1;
+        let mut i = inst(vec![dv(1, Kind::Continuous, None), dv(2, Kind::Continuous, None), dv(3, Kind::Continuous, None), dv(4, Kind::Continuous, None)], f_of(F::Linear(lin(&[(1, 1.0), (2, 1.0)], 0.0))), vec![]);
+        i.decision_variable_dependency.insert(3, f_of(F::Linear(lin(&[(1, 1.0), (2, 1.0)], 0.0))));
+        i.decision_variable_dependency.insert(4, f_of(F::Linear(lin(&[(3, 2.0)], 0.0))));
+        // (only LEAF dependents: a stale value for x3, which x4 is computed from, makes the answer depend on the HashMap order in the real code - observation O3, outside the
+        //  precondition `disj` of the eval_dependencies contract)
+        for extra in [vec![(4u64, 0.0)], vec![(4u64, 100.0)]] {
+            let mut given = vec![(1u64, 1.0), (2u64, 2.0)]; given.extend(extra.iter().cloned());
+            match i.evaluate(&state(&given)) {
+                Ok((sol, _)) => { let st = sol.state.unwrap().entries; if st.get(&3) != Some(&3.0) || st.get(&4) != Some(&6.0) { return Outcome { cases: n, distinct: d.len(), fail: Some(format!("x3 := x1 + x2, x4 := 2*x3 at x1=1, x2=2 with stale entries {extra:?} in the given state: reported x3={:?}, x4={:?}; expected 3 and 6", st.get(&3), st.get(&4))) }; } }
+                Err(e) => return Outcome { cases: n, distinct: d.len(), fail: Some(format!("evaluate with stale entries {extra:?} for dependent variables failed: {e}")) },
+            }
+        }
+    }
     Outcome { cases: n, distinct: d.len(), fail: None }
 }
 
